@@ -38,7 +38,7 @@ def gen_buffers(rng: random.Random, n_streams: int, per_stream: int, n_random: i
                 v = max(words[i] + rng.choice([-12, -11, -10, -9, -8, -7, -6, -5, -4, -3, -2, -1, 1, 2, 3, 4, 5, 6, 7, 8]), 0) % 2**32
             else:
                 v = rng.choice(SPECIAL + [max(rem - 1, 0), rem, rem + 1, max(rem - 2, 0), rem + 2, words[i] + 1, max(words[i] - 1, 0), (words[i] + 2**31) % 2**32])
-            w = list(words); w[i] = v
+            w = list(words); w[i] = v & 0xFFFFFFFF
             bufs.append((w, m)); kinds.append("one-word-replaced")
         # truncations: every point for short streams, sampled for long ones
         cuts = range(L) if L <= 120 else sorted(rng.sample(range(L), 100))
